@@ -47,7 +47,11 @@ var c18Segs = map[string]string{
 	"digit-line": "step 4 of the plan\r\nnext> ", "plain": "working on it...\r\n", "more": " --more-- #", "finished": "all finished\r\nr1# ",
 	"done-upper": "DONE\r\nr1# ", "done-lower": "done\r\nr1# ", "password-again": "Password: ", "two-triggers": "Confirm? password ok (yes/no) 7 #",
 	"pw-upper-q": "Reset PASSWORD now? [y/n] ", "more-upper": " --MORE-- #",
+	"confirm-long": "Please Confirm the action [y]: \r\n" + c18Listing, "password-long": "Password: \r\n" + c18Listing,
 }
+
+// c18Listing: 1150 bytes without a digit, '#', or any of the trigger texts
+var c18Listing = strings.Repeat("    interface description lorem ipsum dolor sit\r\n", 23)
 
 var c18Res = map[string]*regexp.Regexp{"digit": regexp.MustCompile(`\d`), "hashend": regexp.MustCompile(`#\s*$`)}
 
